@@ -523,7 +523,7 @@ pub open spec fn imin(a: int, b: int) -> int { if a <= b { a } else { b } }
                     [[L: bump/loop2/flags_set_up_to_k]]
                     forall|q: int| range.start <= q < k__ ==> #[trigger] covered@[q] == imax(old(covered)@[q] as int, 1),
                     forall|q: int| 0 <= q < covered@.len() && !(range.start <= q < k__) ==> #[trigger] covered@[q] == old(covered)@[q],
-//@at /^\s*\*i = \(\*i\)\.max\(0\.0\)/ before
+//@at /let i = cell_mut\(data, k__\);/ after
                 proof { float_ax::float_det(); }
 //@end
 
